@@ -442,6 +442,9 @@ func countInstrs(fn *ssa.Function) int {
 }
 
 func (e *Engine) recursionExceeded(fn *ssa.Function, site ssa.Instruction) {
+	if e.stepCap > 0 {
+		e.abort("budget", "call depth %d exceeded entering %s", e.cfg.MaxDepth, fn.String())
+	}
 	e.events = append(e.events, Event{Kind: "recursion-bound", Msg: fmt.Sprintf("call depth %d exceeded entering %s", e.cfg.MaxDepth, fn.String())})
 	e.abort("bound", "recursion depth %d exceeded at %s", e.cfg.MaxDepth, fn.String())
 }
@@ -500,6 +503,9 @@ func (e *Engine) runBlocks(fr *frame) {
 			e.steps++
 			if e.steps > e.cfg.MaxSteps {
 				e.abort("bound", "step bound %d exceeded", e.cfg.MaxSteps)
+			}
+			if e.stepCap > 0 && e.steps > e.stepCap {
+				e.abort("budget", "work budget exceeded")
 			}
 			switch x := in.(type) {
 			case *ssa.Phi:
